@@ -35,6 +35,8 @@ RULE = ("a case is (rows, cols, factor, header kind in {cdelt, cd, mixed, both, 
         "pixel is interpolated and the residual bookkeeping is exercised); distinct by (rows, cols, factor, header "
         "kind, input); malformed-stream cases are counted separately in the histogram and are never non-trivial")
 ASSUMPTIONS = [
+    "history independence is sampled, not proved: the Lean model is a pure function, the implementation is checked by "
+    "running shapes that share a compressed shape and factor back to back in one process on the same file names",
     "header cards other than NAXISi, CRPIXi, CDELTi/CDi_i and BN_* are opaque (keyword, raw value) pairs in the model; "
     "the all-cards comparison (round trip: Spec; intermediate compressed header: correspondence) runs on every card "
     "astropy reports, with rotated CD matrices, PC+CDELT and CROTA2 headers among the generated kinds",
@@ -310,7 +312,7 @@ class Obs:
     pass
 
 
-def run_impl(ctx, case, want_file_checks=True):
+def run_impl(ctx, case, want_file_checks=True, fixed_tag=None):
     """compress + expand through the real code; returns an Obs (with .error set if something raised)"""
     from astropy.io import fits
     from AegeanTools import fits_tools
@@ -323,7 +325,7 @@ def run_impl(ctx, case, want_file_checks=True):
     o.hdr0_tokens = hdr_tokens(hl[0].header)
     tmp = ctx.tmpdir()
     run_impl.n = getattr(run_impl, 'n', 0) + 1
-    tag = f"{run_impl.n}_{rows}_{cols}_{f}_{kind}_{pattern}"
+    tag = fixed_tag or f"{run_impl.n}_{rows}_{cols}_{f}_{kind}_{pattern}"
     o.files = []
     cpath = os.path.join(tmp, f"c_{tag}.fits")
     try:
@@ -370,6 +372,8 @@ def sig(what, case, **kw):
     rows, cols, f = case['rows'], case['cols'], case['f']
     s = dict(site='compress/expand', what=what, residual_rows=rows % f != 0, residual_cols=cols % f != 0,
              factor_gt_size=f > min(rows, cols))
+    if case.get('history'):
+        s['history'] = True        # the case was preceded, in this process, by the calls listed in case['history']
     s.update(kw)
     return s
 
@@ -675,6 +679,111 @@ def malformed(ctx):
 
 
 # ---------------------------------------------------------------------------------------------
+# in-process histories: the answer must be a function of the current input only
+# ---------------------------------------------------------------------------------------------
+
+def same_compressed_shape(rng, f, k):
+    """up to three different lengths n with ceil(n / f) == k (so they compress to the same k + 1 samples)"""
+    cand = [n for n in range(max(2, (k - 1) * f + 1), k * f + 1)]
+    rng.shuffle(cand)
+    return cand[:3]
+
+
+def run_sequence(ctx, seq):
+    """the cases of `seq` one after the other in this process, on the SAME file names, each judged by the full
+    Spec and by its consumers immediately (so that every expand() call sees the state left by the previous one)"""
+    done = []
+    for case in seq:
+        c = dict(case, history=[[d['rows'], d['cols'], d['f'], d['kind'], d['io'], d['pattern'], d.get('imgseed', 0)]
+                                for d in done][-6:])
+        o = run_impl(ctx, c, want_file_checks=True, fixed_tag='hist')
+        judge(ctx, c, o, {})
+        if o.error is None:
+            check_consumers(ctx, c, o)
+        ctx.count('history-step')
+        ctx.case(dict(rows=c['rows'], cols=c['cols'], f=c['f'], kind=c['kind'], io=c['io'], history_len=len(done)),
+                 nontrivial_key=('hist', c['rows'], c['cols'], c['f'], c['kind'], c['io'], len(done)) if c['f'] >= 2 else None,
+                 sample_every=997)
+        done.append(case)
+
+
+def histories(ctx):
+    """for each factor: two or three original shapes that share ceil(rows/f) and ceil(cols/f) -- hence the same
+    compressed shape, factor and (often) residual class -- round-tripped alternately, file and HDUList inputs mixed,
+    with load_image_band / _load_aux_image on each compressed file; plus the same shape with different pixels and
+    a different header kind.  A cache keyed on too little, a reused buffer or a stale file shows up as a Spec failure
+    of a later step (signature carries history=True; the replay re-runs the steps before it)."""
+    rng = ctx.rng
+    factors = [2, 3, 5, 7] if ctx.quick else list(range(2, 13))
+    for f in factors:
+        for rep in range(1 if ctx.quick else 3):
+            kr, kc = rng.randint(1, 5), rng.randint(1, 5)
+            rs, cs = same_compressed_shape(rng, f, kr), same_compressed_shape(rng, f, kc)
+            shapes = [(r, c) for r in rs for c in cs]
+            rng.shuffle(shapes)
+            shapes = shapes[:3]
+            if len(shapes) < 2:
+                continue
+            seq = []
+            for n in range(2 * len(shapes) + 1):           # A B C A B C A': every shape follows every other one
+                r, c = shapes[n % len(shapes)]
+                seq.append(mk(r, c, f, rng.choice(['cdelt', 'cd', 'cdrot']), 'file' if (n + rep) % 2 else 'hdu',
+                              rng.choice(['random', 'nodal']), rng.randint(0, 10 ** 6)))
+            run_sequence(ctx, seq)
+    # the seeder's own pair
+    run_sequence(ctx, [mk(41, 37, 5, 'cdelt', 'hdu', 'random', 1), mk(43, 38, 5, 'cdelt', 'hdu', 'random', 2),
+                       mk(41, 37, 5, 'cdelt', 'file', 'nodal', 3)])
+
+
+def repeated_ops(ctx):
+    """compress of an already compressed HDUList and expand of an already expanded one: whatever the code does,
+    the model (a pure function applied twice) must predict it.  On the pinned tree: the second compress decimates
+    again and overwrites BN_* with the compressed size (the original size is lost; expand then returns the
+    once-compressed array, no longer marked compressed); the second expand returns the same object untouched."""
+    from AegeanTools import fits_tools
+    rng = ctx.rng
+    lines, meta = [], []
+    for trial in range(4 if ctx.quick else 16):
+        rows, cols, f1, f2 = rng.randint(6, 30), rng.randint(6, 30), rng.randint(1, 5), rng.randint(1, 5)
+        img = make_image(rows, cols, f1, 'random', trial)
+        case = dict(op='compress-twice', rows=rows, cols=cols, f=f1, f2=f2)
+        try:
+            c1 = fits_tools.compress(make_hdulist(img, rng.choice(['cdelt', 'cdrot'])), f1)
+            h1, d1 = c1[0].header.copy(), np.array(c1[0].data)
+            c2 = fits_tools.compress(c1, f2)
+            h2, d2 = c2[0].header.copy(), np.array(c2[0].data)
+            e1 = fits_tools.expand(c2)
+            h3, d3 = e1[0].header.copy(), np.array(e1[0].data)
+            e2 = fits_tools.expand(e1)
+            same = e2 is e1 and np.array_equal(np.array(e2[0].data), d3, equal_nan=True) and \
+                hdr_view(e2[0].header) == hdr_view(h3)
+        except Exception as e:  # noqa
+            ctx.note(f"repeated compress/expand raised {type(e).__name__}: {e} on {case}")
+            ctx.fail('corr', case, f"repeated compress/expand raised {type(e).__name__}: {e} (the pinned tree does not)",
+                     dict(site='compress/expand', what='repeated-ops'))
+            continue
+        if not same:
+            ctx.fail('spec', case, "expand() of an already expanded (uncompressed) HDUList changed it",
+                     dict(site='expand', what='expand-not-idempotent'))
+        lines.append(f"compress {f2} {d1.shape[0]} {d1.shape[1]} {hdr_tokens(h1)} {px_tokens(d1)}")
+        meta.append((case, 'second compress', h2, d2))
+        lines.append(f"expand {d2.shape[0]} {d2.shape[1]} {hdr_tokens(h2)} {px_tokens(d2)}")
+        meta.append((case, 'expand after two compresses', h3, d3))
+        ctx.count('repeated-ops')
+        ctx.case(dict(case, second_compress_shape=list(d2.shape), after_one_expand=list(d3.shape),
+                      bn_after_second_compress=[int(h2['BN_NPX2']), int(h2['BN_NPX1'])]))
+    outs = ctx.driver.batch(lines) if (lines and ctx.driver_ok) else []
+    for (case, what, h, d), out in zip(meta, outs):
+        m = parse_result(out)
+        if m[0] != 'ok':
+            ctx.fail('corr', case, f"{what}: implementation succeeds, model: {out[:60]}", dict(site='compress/expand', what='repeated-ops'))
+        elif m[4].shape != d.shape or not np.allclose(m[4].astype(np.float32), d, rtol=2e-6, atol=2e-6, equal_nan=True):
+            ctx.fail('corr', case, f"{what}: data differ (shapes {d.shape} / {m[4].shape})", dict(site='compress/expand', what='repeated-ops'))
+        elif hdr_diff(hdr_view(h), m[3]):
+            ctx.fail('corr', case, f"{what}: header {hdr_diff(hdr_view(h), m[3])}", dict(site='compress/expand', what='repeated-ops'))
+
+
+# ---------------------------------------------------------------------------------------------
 # open known finding C15-nan-bleed: a NaN node turns its finite neighbours into NaN (0 * NaN)
 # ---------------------------------------------------------------------------------------------
 
@@ -844,6 +953,8 @@ def run(ctx):
     for k in range(0, len(cases), 400):
         run_cases(ctx, cases[k:k + 400])
     malformed(ctx)
+    histories(ctx)
+    repeated_ops(ctx)
     nan_witness(ctx)
     if not ctx.quick:
         sr6_cases(ctx, [c for k, c in enumerate(cases) if k % 9 == 0][:300])
@@ -885,6 +996,9 @@ def search(ctx):
     warnings.simplefilter('ignore')
     if any(f['kind'] == 'spec' for f in ctx.failures):
         return
+    histories(ctx)
+    if any(f['kind'] == 'spec' for f in ctx.failures):
+        return
     if sweep(ctx, thorough=False):
         return
     # nothing in the small sweep: consumers and the file path on a spread of cases, Spec only
@@ -905,6 +1019,12 @@ def replay(ctx, rec):
             sr6_cases(ctx, [mk(c['rows'], c['cols'], c['f'], c['kind'], 'file', c['pattern'], c.get('imgseed', 0))])
         else:
             sr6_cases(ctx, [])
+    elif c.get('op') == 'compress-twice':
+        repeated_ops(ctx)
+    elif 'rows' in c and 'f' in c and 'kind' in c and c.get('history'):
+        run_sequence(ctx, [mk(*h) for h in c['history']] +
+                     [mk(c['rows'], c['cols'], c['f'], c['kind'], c.get('io', 'hdu'), c.get('pattern', 'random'),
+                         c.get('imgseed', 0))])
     elif 'rows' in c and 'f' in c and 'kind' in c:
         run_cases(ctx, [mk(c['rows'], c['cols'], c['f'], c['kind'], c.get('io', 'hdu'), c.get('pattern', 'random'),
                            c.get('imgseed', 0))])
